@@ -22,8 +22,10 @@ for tier in tiers:
         pid = c['property_id']
         fd, tmp = tempfile.mkstemp(suffix='.json')
         os.close(fd)
-        subprocess.run([os.path.join(ROOT, 'check'), pid, '--tier', tier, '--no-evidence', '--no-bounded', '--dump-obligations', tmp],
-                       capture_output=True)
+        r = subprocess.run([os.path.join(ROOT, 'check'), pid, '--tier', tier, '--no-evidence', '--no-bounded', '--dump-obligations', tmp],
+                           capture_output=True, text=True)
+        summ = [l for l in r.stdout.splitlines() if l.startswith(pid + ' tier=')]
+        print('rc=%d %s' % (r.returncode, summ[-1] if summ else r.stderr[-200:]), flush=True)
         names = [n for n, st in json.load(open(tmp)) if ':after-another-call:' not in n and not n.endswith(':div-safe')
                  and ':div-safe:' not in n and not n.endswith(':reach') and st in ('discharged', 'violation', 'violation-noinput')]
         out[tier][pid] = sorted(set(names))
